@@ -1,6 +1,8 @@
-(* C01 driver: histories through the extracted model (ModelArg.wrun_fast / st_wrun / iv_wrun_fast - the
-   fast forms proved equal to wrun / iv_wrun on every invariant state, Properties_arg.C01_wfast_model_equal)
-   and spec (SpecArg.wspec_run / st_wspec_run / iv_wspec_run).
+(* C01 driver: histories through the extracted model (ModelMv.vrun_fast / st_vrun / iv_vrun_fast - the
+   fast forms proved equal to vrun / iv_vrun on every invariant state, Properties_mv.C01_vfast_model_equal)
+   and spec (SpecMv.vspec_run / st_vspec_run / iv_vspec_run).
+   `mvo t` / `mco t` / `fro t xs` are the moves with the source left as the call leaves it (ModelMv.v); for inplace_vector
+   the flavour says whether its move members are the defaulted ones (ivt_of_fl).
    The argument types of the flavour enter as ModelArg.argt (arg_of_fl): the language's == between an element and a
    value of another arithmetic type, the conversion of an element, the element T(a, b).
    The element type of the flavour enters as ModelEl.elt: its operator< / operator== (records ordered by key only for the
@@ -37,10 +39,22 @@ let arg_of_fl (flavour : string) : argt =
   | "iln" | "ilt" -> arg_il
   | _ -> arg_int
 
-let parse_sv (t : toks) : wop list =
+(* inplace_vector<T, N>: are the move constructor / the move assignment the defaulted ones (requires-clauses of the header:
+   is_trivially_move_constructible_v<T>;  is_trivially_move_assignable_v<T> and is_trivially_move_constructible_v<T> and
+   is_trivially_destructible_v<T>). *)
+let ivt_of_fl (flavour : string) : ivt =
+  let e = match String.index_opt flavour '_' with
+    | Some i -> String.sub flavour (i + 1) (String.length flavour - i - 1)
+    | None -> "int" in
+  match e with
+  | "int" | "pod" | "ilt" -> ivt_trivial
+  | _ -> ivt_class
+
+let parse_sv (t : toks) : vop list =
   let k = next_int t in
   let ops = ref [] in
-  let wpush x = ops := x :: !ops in
+  let vpush x = ops := x :: !ops in
+  let wpush x = vpush (VW x) in
   let zpush x = wpush (WZ x) in
   let ypush x = zpush (ZY x) in
   let push x = ypush (XBase x) in
@@ -109,14 +123,17 @@ let parse_sv (t : toks) : wop list =
         | "eih" -> let k = next_z t in let p = next_z t in wpush (WEraseIfHet (tg, k, p))
         | "eb2" -> let a = next_z t in let b = next_z t in wpush (WEmplaceBack2 (tg, a, b))
         | "em2" -> let p = next_z t in let a = next_z t in let b = next_z t in wpush (WEmplaceAt2 (tg, p, a, b))
+        | "mvo" -> vpush (VMoveAssign tg)
+        | "mco" -> vpush (VMoveConstruct tg)
         | _ -> raise Not_found))
   done;
   List.rev !ops
 
-let parse_st (t : toks) : st_wop list =
+let parse_st (t : toks) : st_vop list =
   let k = next_int t in
   let ops = ref [] in
-  let wpush x = ops := x :: !ops in
+  let vpush x = ops := x :: !ops in
+  let wpush x = vpush (StV x) in
   let zpush x = wpush (StW x) in
   let ypush x = zpush (StZ x) in
   let push x = ypush (StBase x) in
@@ -145,14 +162,18 @@ let parse_st (t : toks) : st_wop list =
         | "fcc" -> let xs = next_zlist t in push (StFromContainer (tg, xs))
         | "fcr" -> let xs = next_zlist t in push (StFromContainerRv (tg, xs))
         | "eb2" -> let a = next_z t in let b = next_z t in wpush (StWEmplace2 (tg, a, b))
+        | "mvo" -> vpush (StVMoveAssign tg)
+        | "mco" -> vpush (StVMoveConstruct tg)
+        | "fro" -> let xs = next_zlist t in vpush (StVFromContainerRv (tg, xs))
         | _ -> raise Not_found))
   done;
   List.rev !ops
 
-let parse_iv (t : toks) : iv_wop list =
+let parse_iv (t : toks) : iv_vop list =
   let k = next_int t in
   let ops = ref [] in
-  let wpush x = ops := x :: !ops in
+  let vpush x = ops := x :: !ops in
+  let wpush x = vpush (IvV x) in
   let push x = wpush (IvW x) in
   let base x = push (IvBase x) in
   for _ = 1 to k do
@@ -185,6 +206,8 @@ let parse_iv (t : toks) : iv_wop list =
      | "cpi" -> let d = b t in let x = next_z t in push (IvCopyIndep (tg, d, x))
      | "te2" -> let a = next_z t in let b = next_z t in wpush (IvWTryEmplace2 (tg, a, b))
      | "ue2" -> let a = next_z t in let b = next_z t in wpush (IvWUncheckedEmplace2 (tg, a, b))
+     | "mvo" -> vpush (IvVMoveAssign tg)
+     | "mco" -> vpush (IvVMoveConstruct tg)
      | _ -> raise Not_found)
   done;
   List.rev !ops
@@ -223,15 +246,16 @@ let run_case op t =
       if has_prefix flavour "iv" then begin
         let ops = parse_iv t in
         let a = arg_of_fl flavour in
-        (render (iv_wrun_fast a s0 ops), render_spec (iv_wspec_run a cz ([], []) ops))
+        let i = ivt_of_fl flavour in
+        (render (iv_vrun_fast a i s0 ops), render_spec (iv_vspec_run a cz i ([], []) ops))
       end else if has_prefix flavour "st" then begin
         let ops = parse_st t in
         let a = arg_of_fl flavour in
-        (render (st_wrun a (elt_of flavour) s0 ops), render_spec (st_wspec_run a (elt_of flavour) cz ([], []) ops))
+        (render (st_vrun a (elt_of flavour) s0 ops), render_spec (st_vspec_run a (elt_of flavour) cz ([], []) ops))
       end else begin
         let ops = parse_sv t in
         let a = arg_of_fl flavour in
-        (render (wrun_fast a (elt_of flavour) pred_of s0 ops), render_spec (wspec_run a (elt_of flavour) pred_of cz ([], []) ops))
+        (render (vrun_fast a (elt_of flavour) pred_of s0 ops), render_spec (vspec_run a (elt_of flavour) pred_of cz ([], []) ops))
       end
   | _ -> raise Not_found
 
